@@ -33,10 +33,11 @@ type CaseSpec struct {
 }
 
 type GenSpec struct {
-	Name     string   `json:"name"` // virtual package dir name under internal/zzgen
-	Spec     string   `json:"spec"` // spec file relative to the harness dir (or produced by SpecCmd)
-	SpecCmd  []string `json:"spec_cmd"`
-	Features []string `json:"features"`
+	Name     string         `json:"name"` // virtual package dir name under internal/zzgen
+	Spec     string         `json:"spec"` // spec file relative to the harness dir (or produced by SpecCmd)
+	SpecCmd  []string       `json:"spec_cmd"`
+	Features []string       `json:"features"`
+	HubEntry map[string]int `json:"hub_entry"` // exported harness entry -> number of int args after the package index
 }
 
 type UnitSpec struct {
@@ -53,6 +54,7 @@ type UnitSpec struct {
 	Prefer         string                `json:"prefer"` // "" (pipe first) or a one-shot solver name tried first for hard arithmetic
 	PipeTimeoutMS  int                   `json:"pipe_timeout_ms"`
 	AssertTimeoutS int                   `json:"assert_timeout_s"`
+	genBounds      map[string]any
 }
 
 type CheckSpec struct {
@@ -285,6 +287,9 @@ func overlayFor(hdir, scratch string, u UnitSpec, pkgName string, withTest bool)
 	ov[zzVirtual] = zz
 	paths[zzVirtual] = filepath.Join(verifDir, "rt", "zzverif", "zzverif.go")
 	for _, h := range u.Harness {
+		if u.Gen != nil {
+			break // copied into every generated package by generateUnit
+		}
 		src := filepath.Join(hdir, h)
 		b, err := os.ReadFile(src)
 		if err != nil {
@@ -315,9 +320,10 @@ func goEnv() []string {
 
 func runUnit(id, hdir, scratch string, u UnitSpec, o runOpts, listed map[string]bool, deadline time.Time) *unitResult {
 	res := &unitResult{unit: u}
+	defer func() { res.unit = u }()
 	tl := time.Now()
 	if u.Gen != nil {
-		if err := generateUnit(hdir, scratch, &u); err != nil {
+		if err := generateUnit(hdir, scratch, &u, o.tier, o.seed); err != nil {
 			res.err = fmt.Errorf("generation failed: %w", err)
 			return res
 		}
@@ -539,9 +545,6 @@ func harnessInventory(pkg *ssa.Package, roots []*ssa.Function) (covers, asserts 
 		}
 		visited[fn] = true
 		pos := pkg.Prog.Fset.Position(fn.Pos())
-		if fn.Pkg != pkg && (fn.Parent() == nil || fn.Parent().Pkg != pkg) {
-			return
-		}
 		if pos.IsValid() && !strings.Contains(filepath.Base(pos.Filename), "zz_verif_") {
 			return
 		}
